@@ -8,6 +8,7 @@ import (
 	"go/token"
 	"go/types"
 	"math"
+	"os"
 	"sort"
 	"strings"
 	"time"
@@ -516,6 +517,12 @@ func (e *Engine) runState(st *State) {
 
 func (e *Engine) pathEnd(st *State) {
 	sig := strings.Join(st.path, ",")
+	if f := os.Getenv("GOSYM_PATHS"); f != "" {
+		if fh, err := os.OpenFile(f, os.O_APPEND|os.O_CREATE|os.O_WRONLY, 0644); err == nil {
+			fh.WriteString(sig + "\n")
+			fh.Close()
+		}
+	}
 	if !e.res.pathSigs[sig] {
 		e.res.pathSigs[sig] = true
 		if len(e.res.Samples) < 5 {
